@@ -140,6 +140,72 @@ async fn async_writer(req: &Value) -> R {
     }
 }
 
+thread_local! {
+    static ASYNC_HANDLES: std::cell::RefCell<std::collections::HashMap<String, cacache::Writer>> =
+        std::cell::RefCell::new(std::collections::HashMap::new());
+}
+
+async fn async_handle(req: &Value) -> R {
+    let wid = s(req, "wid").to_string();
+    let cache = s(req, "cache");
+    match s(req, "op") {
+        "wh_open" => {
+            let opts_v = req.get("opts");
+            let w = if has(req, "key") {
+                build_opts(opts_v).open(cache, s(req, "key")).await
+            } else {
+                build_opts(opts_v).open_hash(cache).await
+            }
+            .map_err(|e| staged(err_json(&e), "open"))?;
+            ASYNC_HANDLES.with(|h| h.borrow_mut().insert(wid, w));
+            Ok(json!({"opened":true}))
+        }
+        "wh_write" => {
+            let mut w = ASYNC_HANDLES
+                .with(|h| h.borrow_mut().remove(&wid))
+                .ok_or_else(|| no_handle(&wid))?;
+            let c = get_data(&req["data"]);
+            let mut off = 0usize;
+            let mut calls = 0u64;
+            let mut res: R = Ok(Value::Null);
+            while off < c.len() {
+                match w.write(&c[off..]).await {
+                    Ok(0) => {
+                        res = Err(json!({"variant":"StdIo","kind":"WriteZero","stage":"write"}));
+                        break;
+                    }
+                    Ok(n) => {
+                        off += n;
+                        calls += 1;
+                    }
+                    Err(e) => {
+                        res = Err(staged(ioerr_json(&e), "write"));
+                        break;
+                    }
+                }
+            }
+            if res.is_ok() && req.get("flush").and_then(|x| x.as_bool()).unwrap_or(false) {
+                if let Err(e) = w.flush().await {
+                    res = Err(staged(ioerr_json(&e), "flush"));
+                }
+            }
+            ASYNC_HANDLES.with(|h| h.borrow_mut().insert(wid, w));
+            res.map(|_| json!({"written":off,"calls":calls}))
+        }
+        _ => {
+            let w = ASYNC_HANDLES
+                .with(|h| h.borrow_mut().remove(&wid))
+                .ok_or_else(|| no_handle(&wid))?;
+            if s(req, "final") == "drop" {
+                drop(w);
+                return Ok(json!({"dropped":true}));
+            }
+            let sri = w.commit().await.map_err(|e| staged(err_json(&e), "commit"))?;
+            Ok(json!({"sri":sri.to_string()}))
+        }
+    }
+}
+
 async fn async_reader(req: &Value) -> R {
     let cache = s(req, "cache");
     let mut r = if has(req, "key") {
@@ -246,6 +312,7 @@ pub async fn exec_async(req: &Value) -> R {
             r.map(|i| json!({"sri":i.to_string()})).map_err(ce)
         }
         "writer" => async_writer(req).await,
+        "wh_open" | "wh_write" | "wh_final" => async_handle(req).await,
         "read" => cacache::read(cache, s(req, "key"))
             .await
             .map(|d| json!({"data":put_data(&d)}))
